@@ -30,7 +30,8 @@ def expected(path):
     return []
 
 def main():
-    pat = sys.argv[1] if len(sys.argv) > 1 else ""
+    args = [a for a in sys.argv[1:] if not a.startswith("-")]
+    pat = args[0] if args else ""
     patches = sorted(glob.glob("/verif/mutants/*.patch") + glob.glob("/verif/seeded/*/patch.diff"))
     patches = [p for p in patches if pat in p]
     if sh("git", "-C", REPO, "status", "--porcelain").stdout.strip():
